@@ -377,7 +377,11 @@ def setup(rec, tier):
 
 
 def finish(rec, tier, state):
+    np.set_printoptions(**_DEFAULT_PO)
     shutil.rmtree(state["tmp"], ignore_errors=True)
+
+
+_DEFAULT_PO = {k_: v_ for k_, v_ in np.get_printoptions().items() if k_ in ("precision", "threshold", "edgeitems", "linewidth", "suppress")}
 
 
 def run_case(i, rng, rec, tier, state):
@@ -425,6 +429,14 @@ def run_case(i, rng, rec, tier, state):
     info = {"class": cls, "kind": kind, "nverts": len(V), "nfaces": len(faces), "nedges": nedges, "magnitude": mag, "vertices": V[:6]}
     before = deep_state(s)
     texts = {}
+    # a file describes the polyhedron, whatever the session's display settings are: one case in three is exported while NumPy's
+    # process-wide print options are what an interactive user may have set them to (few digits, short threshold, narrow lines);
+    # the next case (and finish) puts the defaults back
+    np.set_printoptions(**_DEFAULT_PO)
+    if rng.random() < 0.33:
+        np.set_printoptions(precision=int(rng.choice([2, 4])), threshold=int(rng.choice([5, 40])), edgeitems=2, linewidth=int(rng.choice([30, 75])),
+                            suppress=bool(rng.random() < 0.5))
+        rec.cls("numpy-print-options:changed")
     for fmt in FORMATS:
         use_path = rng.random() < 0.5
         fn = os.path.join(tmp, f"case{i}.{fmt.lower()}")
